@@ -60,24 +60,22 @@ namespace Machine
 /-- `Axecutor::new(code, code_start_addr, initial_rip)`.
     Registers other than RIP are the constructor's random values: a parameter here. -/
 def new (init : Regs) (code : List Byte) (start rip : Nat) : Out Machine :=
-  -- `code_start_addr + code.len() as u64` (checked add in the verification build)
-  match u64add start code.length with
-  | none => .panic
-  | some cend =>
-    let s : Machine := {
-      regs := { init with rip := BitVec.ofNat 64 rip },
-      codeEnd := cend,
-      callStack := [rip],
-      symbols := [(rip, "_start")],
-      trace := [{ instrIp := 0, target := rip, variant := .call, level := 0, count := 1 }] }
-    match initArea s.mem start code none with
-    | .ok m =>
-      match memProt m start (PROT_READ ||| PROT_EXEC) with
-      | .ok m' => .ok { s with mem := m' }
-      | .err => .err
-      | .panic => .panic
+  -- `code_start_addr.wrapping_add(code.len() as u64)`
+  let cend := (start + code.length) % 2 ^ 64
+  let s : Machine := {
+    regs := { init with rip := BitVec.ofNat 64 rip },
+    codeEnd := cend,
+    callStack := [rip],
+    symbols := [(rip, "_start")],
+    trace := [{ instrIp := 0, target := rip, variant := .call, level := 0, count := 1 }] }
+  match initArea s.mem start code none with
+  | .ok m =>
+    match memProt m start (PROT_READ ||| PROT_EXEC) with
+    | .ok m' => .ok { s with mem := m' }
     | .err => .err
     | .panic => .panic
+  | .err => .err
+  | .panic => .panic
 
 end Machine
 end Ax
